@@ -804,7 +804,7 @@ func c13Commands(c *fw.Ctx) {
 	}
 }
 
-// ---- S8: a command that reads one file reads it in ONE session.  For view, view-raw and diff (local and through the
+// ---- S10: a command that reads one file reads it in ONE session.  For view, view-raw and diff (local and through the
 // server) the lock acquisitions on the source file are counted; a complete writer session (open, one point into every
 // archive, close) is then placed at every boundary: before the first acquisition, between each two, after the last.
 // Whatever the command prints must be what it prints on the file before the writer or on the file after it.
@@ -912,7 +912,7 @@ func c13Readers(c *fw.Ctx) {
 				if remote {
 					where = "remote"
 				}
-				sig := "C13/S8-reader-one-session/" + cmdName + "/" + where
+				sig := "C13/S10-reader-one-session/" + cmdName + "/" + where
 				if b < n {
 					want = "the output before or the output after the writer"
 				}
